@@ -100,7 +100,7 @@ def o2(tier):
 def o3(tier):
     """the identity checked is the one OpenMLS authenticated for this very message"""
     ob = Ob('O3', 'dispatch_by_content_type: the credential handed to the author check (and the sender handed to commit validation) are those of the processed MLS message itself, '
-                  'the content stored is that message\'s content, the epoch is the MLS group\'s', pure=C.PURE_MLS)
+                  'the content stored is that message\'s content, the epoch recorded is that message\'s own epoch', pure=C.PURE_MLS)
     f = ob.fn(CORE, 'process::dispatch_by_content_type')
     args = [Opaque('self', '&MDK<Storage>'), Opaque('group', 'mdk_storage_traits::groups::types::Group'), Opaque('mls_group', '&mut openmls::group::MlsGroup'),
             Opaque('bytes', '&[u8]'), Opaque('event', '&nostr::Event')]
@@ -124,7 +124,12 @@ def o3(tier):
                 ob.require(ok and u(cred[0].args[0]).startswith(proc), 'O3/credential-source',
                            f'author check receives {u(e.args[5])}, not the credential of the processed MLS message', p)
                 ob.require(bool(ic) and u(ic[0].args[0]).startswith(proc) and u(ic[0].ret) in u(e.args[4]), 'O3/content-source', f'content processed is {u(e.args[4])}', p)
-                ob.require('as_u64' in u(e.args[2]) and 'MlsGroup::epoch' in u(e.args[2]) and 'mls_group' in u(e.args[2]), 'O3/epoch-source', f'epoch recorded is {u(e.args[2])}', p)
+                # the epoch recorded with the message is the epoch the MESSAGE was created in (OpenMLS also decrypts application messages of recent past
+                # epochs: stamping them with the receiver's current epoch makes a rollback invalidate messages that belong to the common history)
+                mep = [x for x in p.trace if ev_is(x, 'ProcessedMessage::epoch')]
+                ob.require(bool(mep) and u(mep[0].args[0]).startswith(proc) and 'as_u64' in u(e.args[2]) and u(mep[0].ret) in u(e.args[2]), 'O3/epoch-source',
+                           f'epoch recorded with the message is {u(e.args[2])}, not the epoch of the processed MLS message (ProcessedMessage::epoch): a late message of an earlier epoch '
+                           'is stamped with the receiver\'s current epoch and is invalidated by a rollback although it was created before the fork', p)
                 ob.require(u(e.args[1]) == 'group' and u(e.args[3]) in ('event', '*event'), 'O3/group-event', f'group/event passed: {u(e.args[1])} {u(e.args[3])}', p)
             if ev_is(e, 'process_commit'):
                 n_commit += 1
@@ -134,7 +139,10 @@ def o3(tier):
     ob.require(n_app >= 1 and n_commit >= 1, 'O3/vacuity', f'app {n_app} commit {n_commit}')
     ob.r.bounds = {'paths': 'all'}
     ob.r.vacuity.append(f'{len(paths)} paths; {n_app} application, {n_commit} commit dispatches')
-    return ob.done(cases=len(paths))
+    r = ob.done(cases=len(paths))
+    from vlib import scen
+    scen.confirm(r, 'O3/epoch-source', 'c02', 'c02_pre_fork_message_received_on_losing_branch_stays_valid')
+    return r
 
 
 def _shared(fn, oid, title):
